@@ -244,6 +244,19 @@ func runC07(seed int64, n int, tier string, outDir string) (*Report, error) {
 			})
 			cell("json-item", inItem, inItem != nil && payload(inItem))
 			cell("json-list", inList, inList != nil && payload(inList))
+			// a list-valued property holding ONE embedded object, not an array of one: it is that object (a collection
+			// typed member stays the collection, it is not replaced by its members)
+			if known {
+				single, _ := ap.UnmarshalJSON([]byte(`{"id":"https://example.com/outer3","type":"Note","tag":` + doc + `}`))
+				var only ap.Item
+				_ = ap.OnObject(single, func(o *ap.Object) error {
+					if len(o.Tag) == 1 {
+						only = o.Tag[0]
+					}
+					return nil
+				})
+				cell("json-list-single-object", only, only != nil && payload(only))
+			}
 			// gob: encode the registry's value with id and name set, decode
 			var gobTop, gobNested ap.Item
 			if reg != nil {
